@@ -81,6 +81,25 @@ impl PredictionModel for InterpolationSpeedGradeModel {
     }
 }
 
+#[cfg(kani)]
+impl InterpolationSpeedGradeModel {
+    /// verification only: wraps an already built interpolator, skipping the model file that
+    /// [`InterpolationSpeedGradeModel::new`] loads to fill the grid. `predict` is the real one.
+    pub fn verif_from_parts(
+        interpolator: interp::Interpolator,
+        speed_unit: SpeedUnit,
+        grade_unit: GradeUnit,
+        energy_rate_unit: EnergyRateUnit,
+    ) -> Self {
+        InterpolationSpeedGradeModel {
+            interpolator,
+            speed_unit,
+            grade_unit,
+            energy_rate_unit,
+        }
+    }
+}
+
 impl InterpolationSpeedGradeModel {
     #[allow(clippy::too_many_arguments)]
     pub fn new<P: AsRef<Path>>(
